@@ -79,6 +79,8 @@ type ZoneEnt struct {
 	Name string   `json:"name"`
 	Err  string   `json:"err"` // "" | "servfail"
 	Txt  []string `json:"txt"`
+	A    []string `json:"a"`
+	MX   []string `json:"mx"`
 }
 
 type Sig struct {
@@ -285,7 +287,9 @@ func (s *signer) field(t *testing.T, k, d, hdr string, w World) string {
 		HeaderKeys:             []string{"From", "Subject", "To", "Date"},
 	}
 	switch k {
-	case "pass", "nokey", "revoked", "temp", "lentag":
+	case "pass", "nokey", "revoked", "temp", "lentag", "sha1":
+	case "wrongi":
+		opts.Identifier = "@elsewhere.example"
 	case "passlc":
 		opts.HeaderKeys = []string{"from", "subject", "to", "date"}
 	case "ed":
@@ -327,6 +331,15 @@ func (s *signer) field(t *testing.T, k, d, hdr string, w World) string {
 		if !strings.Contains(f, "l=5;") {
 			t.Fatalf("could not add l= to %q", f)
 		}
+	}
+	if k == "sha1" {
+		f = strings.Replace(f, "a=rsa-sha256;", "a=rsa-sha1;", 1)
+		if !strings.Contains(f, "a=rsa-sha1;") {
+			t.Fatalf("could not rewrite a= in %q", f)
+		}
+	}
+	if k == "wrongi" && !strings.Contains(f, "i=@elsewhere.example") {
+		t.Fatalf("signer did not write i= into %q", f)
 	}
 	s.cache[key] = f
 	return f
@@ -596,6 +609,12 @@ func (h *harness) zone(w World) map[string]mockdns.Zone {
 				zn.TXT = append(zn.TXT, t)
 			}
 			zn.A = []string{"192.0.2.200"} // the name exists, whatever it has
+			if len(e.A) > 0 {
+				zn.A = e.A
+			}
+			for _, mx := range e.MX {
+				zn.MX = append(zn.MX, net.MX{Host: strings.ToLower(mx) + ".", Pref: 10})
+			}
 		case "servfail":
 			zn.Err = &net.DNSError{Err: "server misbehaving", Name: name, Server: "scripted", IsTemporary: true}
 		default:
@@ -669,6 +688,16 @@ func (h *harness) runRow(r Row) (o Out) {
 	body := buffer.MemoryBuffer{Slice: []byte(msgBody)}
 
 	id := fmt.Sprintf("row%d", r.ID)
+	if w.UTF8 {
+		// an SMTPUTF8 client sends the domain as a U-label; the row names it by its A-label
+		if at := strings.LastIndexByte(w.Sender, '@'); at >= 0 {
+			u, err := idna.ToUnicode(w.Sender[at+1:])
+			if err != nil || u == w.Sender[at+1:] {
+				h.t.Fatalf("row %d: %q has no U-label form (%v)", r.ID, w.Sender, err)
+			}
+			w.Sender = w.Sender[:at+1] + u
+		}
+	}
 	meta := &module.MsgMetadata{ID: id, DontTraceSender: true, OriginalFrom: w.Sender,
 		SMTPOpts: smtp.MailOptions{UTF8: w.UTF8}}
 	switch w.Conn {
